@@ -228,6 +228,8 @@ def check_relations(table):
             for which, o in (("resolution", o1), ("ColFn", o2)):
                 if o.startswith("!"):
                     out.append(dict(oracle="O13.1", op=name, sig=key, what=f"{which} of `{name}`({key}) raised {o[1:]}", features=dict(cls=o[1:], has_null="NullType" in key, which=which)))
+                elif "Tyvar" in o:
+                    out.append(dict(oracle="O13.1", op=name, sig=key, what=f"{which} of `{name}`({key}) gives {o[2:]}: the return type still contains a type variable", features=dict(kind="unbound_tyvar", which=which)))
             if not o1.startswith("= ") or (op is None and name != "cast"):
                 continue
             parts = key.split(",") if key else []
